@@ -1,7 +1,7 @@
 (* Properties_C12.v -- a Value behaves as an abstract JSON document under every
    operation sequence.  Statements only; proofs in ValueProofs.v / ValueProofsObs.v. *)
 From Coq Require Import NArith ZArith List Bool.
-From Qv Require Import ValueModel ValueProofs ValueProofsObs.
+From Qv Require Import ValueModel ValueProofs ValueProofsObs ValueProofsRead.
 Import ListNotations.
 
 (* One step: for every state-changing operation family (assignment, keyed and
@@ -45,3 +45,64 @@ Print Assumptions c12_moved_from_undefined.
 Theorem c12_lookup_agrees : forall p v, oabs (get_at p v) = d_get_at p (abs v).
 Proof. exact get_at_abs. Qed.
 Print Assumptions c12_lookup_agrees.
+
+(* ---- every read is a function of the abstract document ---- *)
+
+(* The canonical getter dump (kind tests, keys and values by index and by key,
+   iteration, Size -- '?' for an object that holds a removed entry) plus the
+   Stringify skeleton of a value is the dump of its abstraction. *)
+Theorem c12_dump_is_document_dump : forall v, dump_value v = d_dump_value (abs v).
+Proof. exact dump_value_abs. Qed.
+Print Assumptions c12_dump_is_document_dump.
+
+Theorem c12_stringify_is_document_text : forall v, stringify v = d_stringify (abs v).
+Proof. exact stringify_abs. Qed.
+Print Assumptions c12_stringify_is_document_text.
+
+(* The typed getters and coercions (SetNumber, GetUInt64/GetInt64/GetDouble,
+   SetBool, SetCharAndLength, CopyValueTo, Length, Size), through one pointer. *)
+Theorem c12_typed_reads_are_document_reads : forall v, read_value v = d_read (abs v).
+Proof. exact read_value_abs. Qed.
+Print Assumptions c12_typed_reads_are_document_reads.
+
+(* One step of ANY operation, outputs included. *)
+Theorem c12_step_refines_all : forall st o, oc_abs (step st o) = d_step (abss st) o.
+Proof. exact step_abs_all. Qed.
+Print Assumptions c12_step_refines_all.
+
+(* Histories, text level: for every finite operation sequence the complete
+   observable trace of the model (per step: the operation's own output, then
+   the dump of every variable; 'S' skipped; 'X' unspecified) is the trace of
+   the document specification. *)
+Theorem c12_every_read_is_predicted : forall ops, run_model ops = run_spec ops.
+Proof. exact run_model_is_run_spec. Qed.
+Print Assumptions c12_every_read_is_predicted.
+
+Theorem c12_trace_refines : forall ops st, run st ops = d_run (abss st) ops.
+Proof. exact run_abs. Qed.
+Print Assumptions c12_trace_refines.
+
+(* The planner (which positional operations are unspecified) is decided by the
+   specification alone. *)
+Theorem c12_plan_is_spec_plan : forall ops st, plan st ops = d_plan (abss st) ops.
+Proof. exact plan_abs. Qed.
+Print Assumptions c12_plan_is_spec_plan.
+
+(* Coercions agree with the stored content. *)
+Theorem c12_coercions_agree :
+  (forall n, get_uint64 (set_number (SUInt n)) = n /\ get_double_q (set_number (SUInt n)) = (4 * Z.of_N n)%Z
+             /\ set_bool (SUInt n) = Some (0 <? n)%N)
+  /\ (forall z, get_int64 (set_number (SInt z)) = z /\ get_uint64 (set_number (SInt z)) = wrap_u64 z
+                /\ get_double_q (set_number (SInt z)) = (4 * z)%Z /\ set_bool (SInt z) = Some (Z.ltb 0 z))
+  /\ (forall q, get_double_q (set_number (SReal q)) = q /\ get_int64 (set_number (SReal q)) = Z.quot q 4
+                /\ set_bool (SReal q) = Some (Z.ltb 0 q))
+  /\ (set_number STrue = NNat 1 /\ set_number SFalse = NNat 0 /\ set_number SNull = NNat 0
+      /\ set_bool STrue = Some true /\ set_bool SFalse = Some false /\ set_bool SNull = Some false)
+  /\ (forall t, set_number (SStr t) = parse_num t /\ char_and_length (SStr t) = Some t /\ scalar_text (SStr t) = t).
+Proof. exact coercions_agree. Qed.
+Print Assumptions c12_coercions_agree.
+
+Theorem c12_signed_unsigned_roundtrip : forall z,
+    (- two63 <= z < two63)%Z -> wrap_i64 (Z.of_N (wrap_u64 z)) = z.
+Proof. exact wrap_roundtrip. Qed.
+Print Assumptions c12_signed_unsigned_roundtrip.
